@@ -1,222 +1,6 @@
-import MesaModel.Model.CellSpace
-/-!
-Line-protocol driver for the cell-space models (C06, C07, C18-cells).
-One output line per input line; see harness/cells_common.py for the producer and the grammar.
-
-  scenario grid <moore|vn|hex> <torus 0|1> <cap|-> <d1,d2,...>
-  scenario net <directed 0|1> <cap|-> <n> [a-b ...]
-  scenario vor <cap|-> <n> p:x,y ... t:a,b,c ...
-  new cell|fixed|g2d | set a c|- | moveto a c | moverel a key | move a Dir k | remove a
-  tryrandom 0|1 | randempty d... | randcell d...      -> result | observation dump
-  conns c | nbhd c r ic | nbprop c | mask c r ic | nbagents c r ic      -> result
--/
+import MesaModel.Proto.Cells
+/-! line-protocol executable for the cells group (C06, C07, C18-cells); the protocol is implemented in Driver/CellsLib.lean -/
 open Mesa.Cells
-
-def words (s : String) : List String := (s.splitOn " ").filter (· ≠ "")
-
-def parseCoord (s : String) : Option (List Int) := (s.splitOn ",").mapM String.toInt?
-
-def parseNats (s : String) (sep : String) : Option (List Nat) := (s.splitOn sep).mapM String.toNat?
-
-def parseBool : String → Option Bool
-  | "0" => some false
-  | "1" => some true
-  | _ => none
-
-/-- `-` is None -/
-def parseOpt {α} (f : String → Option α) (s : String) : Option (Option α) :=
-  if s = "-" then some none else (f s).map some
-
-def fmtCoord (c : List Int) : String := ",".intercalate (c.map toString)
-
-def fmtCoords (l : List (List Int)) : String := " ".intercalate (l.map fmtCoord)
-
-def fmtErr : Err → String
-  | .full => "err Full"
-  | .noCell => "err NoCell"
-  | .fixed => "err Fixed"
-  | .value => "err Value"
-  | .attr => "err Attr"
-  | .key => "err Key"
-  | .index => "err Index"
-  | .script => "err Script"
-  | .noAgent => "err NoAgent"
-
-def fmtRes : Res → String
-  | .ok => "ok"
-  | .okAgent a => s!"ok {a}"
-  | .okCell c => s!"ok {fmtCoord c}"
-  | .err e => fmtErr e
-
-/-- lexicographic order on coordinates / keys, for canonical (sorted) output -/
-def coordLt : List Int → List Int → Bool
-  | [], [] => false
-  | [], _ :: _ => true
-  | _ :: _, [] => false
-  | x :: xs, y :: ys => x < y || (x == y && coordLt xs ys)
-
-def insertSorted {α} (lt : α → α → Bool) (x : α) : List α → List α
-  | [] => [x]
-  | y :: ys => if lt x y then x :: y :: ys else y :: insertSorted lt x ys
-
-def sortBy {α} (lt : α → α → Bool) (l : List α) : List α := l.foldr (insertSorted lt) []
-
-def sortCoords := sortBy coordLt
-
-structure DSt where
-  sp : Option Space
-  st : State
-  caches : Caches Coord
-
-def noSpace : Space := { cells := [], conn := fun _ => [], cap := fun _ => none, isGrid := false }
-
-def DSt.empty : DSt := { sp := none, st := init noSpace, caches := {} }
-
-/-- the full observation of C06's `observe_at`, from the model state -/
-def dump (sp : Space) (s : State) : String :=
-  let ags := (List.range s.kinds.length).map fun a =>
-    s!"{a}:{match s.cellOf a with | some c => fmtCoord c | none => "-"}"
-  let occ := (sp.cells.filter fun c => !(s.occ c).isEmpty).map fun c =>
-    s!"{fmtCoord c}:{".".intercalate ((s.occ c).map toString)}"
-  let empty := sp.cells.filter (isEmpty s)
-  let full := sp.cells.filter (isFull sp s)
-  let layer := if sp.isGrid then fmtCoords (sp.cells.filter fun c => s.flag c == some true) else "na"
-  s!"ag={" ".intercalate ags} | occ={" ".intercalate occ} | empty={fmtCoords empty} | full={fmtCoords full} | layer={layer} | pempty={layer} | empties={fmtCoords (empties sp s)} | agents={" ".intercalate ((spaceAgents sp s).map toString)} | reg={" ".intercalate (s.registry.map toString)}"
-
-def parseKind : String → Option AKind
-  | "cell" => some .cell
-  | "fixed" => some .fixed
-  | "g2d" => some .grid2d
-  | _ => none
-
-def parseOp : List String → Option Op
-  | ["new", k] => do pure (.new (← parseKind k))
-  | ["set", a, c] => do pure (.setCell (← a.toNat?) (← parseOpt parseCoord c))
-  | ["moveto", a, c] => do pure (.moveTo (← a.toNat?) (← parseCoord c))
-  | ["moverel", a, d] => do pure (.moveRel (← a.toNat?) (← parseCoord d))
-  | ["move", a, dir, k] => do pure (.gridMove (← a.toNat?) dir (← k.toInt?))
-  | ["remove", a] => do pure (.remove (← a.toNat?))
-  | ["tryrandom", b] => do pure (.setTryRandom (← parseBool b))
-  | "randempty" :: ds => do pure (.randEmpty (← ds.mapM String.toNat?))
-  | "randcell" :: ds => do pure (.randCell (← ds.mapM String.toNat?))
-  | _ => none
-
-def parseEdge (s : String) : Option (Nat × Nat) :=
-  match s.splitOn "-" with
-  | [a, b] => do pure (← a.toNat?, ← b.toNat?)
-  | _ => none
-
-/-- `Grid._validate_parameters` (+ `HexGrid`): positive ints, hex only in 2-D -/
-def mkGrid (k : GridKind) (torus : Bool) (cap : Option Nat) (dims : List Int) : Option Space :=
-  if dims.all (· > 0) && (k != .hex || dims.length == 2) then
-    let nd := dims.map Int.toNat
-    some (gridSpace k nd torus cap)
-  else none
-
-def parseTri (s : String) : Option (Nat × Nat × Nat) :=
-  match s.splitOn "," with
-  | [a, b, c] => do pure (← a.toNat?, ← b.toNat?, ← c.toNat?)
-  | _ => none
-
-/-- scenario header → space (`some none`: the constructor raises ValueError) -/
-def parseScenario : List String → Option (Option Space)
-  | ["grid", k, t, cap, dims] => do
-    let k ← (match k with | "moore" => some GridKind.moore | "vn" => some .vn | "hex" => some .hex | _ => none)
-    let t ← parseBool t
-    let cap ← parseOpt String.toNat? cap
-    let dims ← parseCoord dims
-    if dims.isEmpty then none else pure (mkGrid k t cap dims)
-  | "net" :: d :: cap :: n :: edges => do
-    let d ← parseBool d
-    let cap ← parseOpt String.toNat? cap
-    let n ← n.toNat?
-    let es ← edges.mapM parseEdge
-    if es.all (fun (a, b) => a < n && b < n) then
-      pure (some (netSpace d n es cap))
-    else none
-  | "vor" :: cap :: n :: rest => do
-    let cap ← parseOpt String.toNat? cap
-    let n ← n.toNat?
-    let pts := rest.filter (·.startsWith "p:")
-    let ts := rest.filter (·.startsWith "t:")
-    if pts.length != n || pts.length + ts.length != rest.length then none else
-    let _ ← pts.mapM (fun p => parseCoord (p.drop 2).toString)
-    let tris ← ts.mapM (fun t => parseTri (t.drop 2).toString)
-    if tris.all (fun (a, b, c) => a < n && b < n && c < n) then
-      pure (some (vorSpace n tris cap))
-    else none
-  | _ => none
-
-def nbOf (sp : Space) (c : Coord) : List Coord := (sp.conn c).map (·.2)
-
-def stepLine (d : DSt) (ws : List String) : DSt × String :=
-  match ws with
-  | "scenario" :: rest =>
-    match parseScenario rest with
-    | none => (DSt.empty, "bad-op")
-    | some none => (DSt.empty, "err Value")
-    | some (some sp) => ({ sp := some sp, st := init sp, caches := {} }, "ok")
-  | _ =>
-  match d.sp with
-  | none => (d, if ws.isEmpty then "bad-op" else "err NoSpace")
-  | some sp =>
-    match ws with
-    | ["conns", c] =>
-      match parseCoord c with
-      | none => (d, "bad-op")
-      | some c =>
-        if c ∈ sp.cells then
-          let l := sortBy (fun a b => coordLt a.1 b.1) (sp.conn c)
-          (d, "ok " ++ " ".intercalate (l.map fun (k, v) => s!"{fmtCoord k}>{fmtCoord v}"))
-        else (d, "err Key")
-    | "nbhd" :: c :: r :: ic :: style =>
-      -- `style` (p|k|m: positional / keyword / mixed call) only varies the memo key on the Python side
-      match parseCoord c, r.toInt?, parseBool ic, (if style ∈ [[], ["p"], ["k"], ["m"]] then some () else none) with
-      | some c, some r, some ic, some _ =>
-        if c ∈ sp.cells then
-          if r < 1 then (d, "err Value")
-          else
-            let (v, cs) := getNbhd (nbOf sp) r.toNat ic c d.caches
-            ({ d with caches := cs }, "ok " ++ fmtCoords (sortCoords v))
-        else (d, "err Key")
-      | _, _, _, _ => (d, "bad-op")
-    | ["nbagents", c, r, ic] =>
-      match parseCoord c, r.toInt?, parseBool ic with
-      | some c, some r, some ic =>
-        if c ∈ sp.cells then
-          if r < 1 then (d, "err Value")
-          else
-            let (v, cs) := getNbhd (nbOf sp) r.toNat ic c d.caches
-            ({ d with caches := cs },
-             "ok " ++ " ".intercalate ((sortBy (fun (a b : Nat) => decide (a < b)) (nbhdAgents d.st v)).map toString))
-        else (d, "err Key")
-      | _, _, _ => (d, "bad-op")
-    | ["nbprop", c] =>
-      match parseCoord c with
-      | none => (d, "bad-op")
-      | some c =>
-        if c ∈ sp.cells then
-          let (v, cs) := nbProp (nbOf sp) c d.caches
-          ({ d with caches := cs }, "ok " ++ fmtCoords (sortCoords v))
-        else (d, "err Key")
-    | ["mask", c, r, ic] =>
-      -- `get_neighborhood_mask`: the coordinates where the mask is True
-      match parseCoord c, r.toInt?, parseBool ic with
-      | some c, some r, some ic =>
-        if !sp.isGrid then (d, "err Attr")
-        else if c ∈ sp.cells then
-          if r < 1 then (d, "err Value")
-          else
-            let (v, cs) := getNbhd (nbOf sp) r.toNat ic c d.caches
-            ({ d with caches := cs }, "ok " ++ fmtCoords (sortCoords v))
-        else (d, "err Key")
-      | _, _, _ => (d, "bad-op")
-    | _ =>
-      match parseOp ws with
-      | none => (d, "bad-op")
-      | some op =>
-        let (s', r) := step sp d.st op
-        ({ d with st := s' }, fmtRes r ++ " | " ++ dump sp s')
 
 partial def loop (h : IO.FS.Stream) (out : IO.FS.Stream) (st : DSt) : IO Unit := do
   let line ← h.getLine
